@@ -146,6 +146,8 @@ pub struct World<S: Sut> {
     pub noncausal: Vec<bool>,
     /// some delivery of this history overtook a causal dependency
     pub ever_noncausal: bool,
+    /// the schedule-level R7 trigger (taint::r7_state) held at some replica at some step of this history
+    pub t7_fired: bool,
     pub past: Vec<Vec<S>>,
     /// actor identity each replica edits through (learned from the script's Gen actions)
     pub actors: Vec<Option<u8>>,
@@ -207,6 +209,7 @@ impl<S: Sut> World<S> {
             order_hash: vec![0; n],
             noncausal: vec![false; n],
             ever_noncausal: false,
+            t7_fired: false,
             past: (0..n).map(|_| vec![S::new()]).collect(),
             actors: vec![None; n],
             ops: vec![],
@@ -482,6 +485,12 @@ impl<S: Sut> World<S> {
         }
         let k = self.know[r];
         let cfg = self.cfg;
+        if S::IS_MAP && !self.t7_fired && self.ever_noncausal {
+            let kf = self.facts_of(k);
+            if crate::taint::r7_state(&kf, &self.facts, &|id| k >> id & 1 == 1) {
+                self.t7_fired = true;
+            }
+        }
         let need_dump = cfg.has(mon::RESIDUE) || cfg.has(mon::SERDE) || cfg.mon & (mon::CONV | mon::SPEC) != 0;
         let dmp = if need_dump { Some(dump(&self.reps[r])) } else { None };
         if let Some(d) = &dmp {
